@@ -219,17 +219,16 @@ Lemma step_thread_safe P g th :
 Proof.
   intros Hq Hs. unfold step_thread. unfold safe_thread in Hs.
   destruct (code th) as [|i rest] eqn:E.
-  - repeat split; auto. + unfold safe_thread. rewrite E. reflexivity. + intros k _; auto.
-    + exists (ts g). destruct g; reflexivity.
+  - split; [exact Hq|]. split; [unfold safe_thread; rewrite E; reflexivity|].
+    split; [intros k _; auto|]. exists (ts g). destruct g; reflexivity.
   - simpl in Hs. apply andb_true_iff in Hs as [Hi Hrest].
     destruct (exec_safe_shape P i g Hq Hi) as [[e He] | (t' & push & o & He & Hpush & Hun)]; rewrite He.
-    + repeat split; auto.
-      * apply settle_safe. unfold safe_thread. rewrite (raise_in_safe P e rest _ _ Hrest). reflexivity.
-      * intros k _; auto.
-      * exists (ts g). destruct g; reflexivity.
-    + repeat split; auto.
-      * apply settle_safe. unfold safe_thread. simpl. rewrite safe_code_app, Hpush, Hrest. reflexivity.
-      * exists t'. reflexivity.
+    + split; [exact Hq|]. split.
+      { apply settle_safe. unfold safe_thread. rewrite (raise_in_safe P e rest _ _ Hrest). reflexivity. }
+      split; [intros k _; auto|]. exists (ts g). destruct g; reflexivity.
+    + split; [apply quiet_with_ts; exact Hq|]. split.
+      { apply settle_safe. unfold safe_thread. simpl. rewrite safe_code_app, Hpush, Hrest. reflexivity. }
+      split; [exact Hun|]. exists t'. reflexivity.
 Qed.
 
 (* the same thread stepping in two agreeing quiet states ends in the same thread state *)
@@ -273,11 +272,11 @@ Proof.
   - pose proof (step_thread_safe (own u) (gl c) th Hq (Hth u th E)) as H.
     destruct (step_thread (gl c) th) as [g' th'] eqn:Es. destruct H as (Hq' & Hs' & Hun & _).
     simpl. split; [split; [exact Hq'|]|split].
-    + intros t th0 Ht. destruct (Nat.eq_dec t u) as [->|Hne].
+    + intros t th0 Ht. simpl in Ht. destruct (Nat.eq_dec t u) as [->|Hne].
       * rewrite (nth_error_upd_nth_same _ _ _ _ E) in Ht. inversion Ht; subst. exact Hs'.
       * rewrite nth_error_upd_nth_other in Ht by auto. eauto.
-    + intros t Hne. apply nth_error_upd_nth_other. auto.
-    + intros t Hne k Hk. apply Hun. apply negb_false_iff in Hk. exact (Hd t u k Hne Hk).
+    + intros t Hne. simpl. apply nth_error_upd_nth_other. auto.
+    + intros t Hne k Hk. simpl. apply Hun. apply negb_false_iff in Hk. exact (Hd t u k Hne Hk).
   - split; [split; assumption|]. split; [auto|]. intros t _ k _. auto.
 Qed.
 
@@ -382,3 +381,493 @@ Proof.
   destruct (Hun k (Hk u)) as (F1 & F2 & F3). auto.
 Qed.
 
+
+(* ---------- Lipton-style mover: steps of two different safe threads commute ---------- *)
+Definition same_tables (a b : TS) : Prop :=
+  forall k, alookup k (cctx a) = alookup k (cctx b) /\ alookup k (rend a) = alookup k (rend b)
+            /\ alookup k (attrs a) = alookup k (attrs b).
+
+Lemma nth_error_all_eq {A} (l1 l2 : list A) : (forall n, nth_error l1 n = nth_error l2 n) -> l1 = l2.
+Proof.
+  revert l2; induction l1 as [|x l1 IH]; intros [|y l2] H; auto.
+  - specialize (H O). discriminate.
+  - specialize (H O). discriminate.
+  - pose proof (H O) as H0. simpl in H0. inversion H0; subst. f_equal. apply IH. intro n. exact (H (S n)).
+Qed.
+
+Lemma untouched_by_step own v c k :
+  disjoint own -> safe_config own c -> own v k = false ->
+  alookup k (cctx (ts (gl (step v c)))) = alookup k (cctx (ts (gl c))) /\
+  alookup k (rend (ts (gl (step v c)))) = alookup k (rend (ts (gl c))) /\
+  alookup k (attrs (ts (gl (step v c)))) = alookup k (attrs (ts (gl c))).
+Proof.
+  intros Hd [Hq Hth] Hk. unfold step. destruct (nth_error (ths c) v) as [th|] eqn:E; [|auto].
+  pose proof (step_thread_safe (own v) (gl c) th Hq (Hth v th E)) as H.
+  destruct (step_thread (gl c) th) as [g' th']. destruct H as (_ & _ & Hun & _). simpl.
+  destruct (Hun k Hk) as (F1 & F2 & F3). auto.
+Qed.
+
+Theorem commute_lemma :
+  forall own c t u, disjoint own -> safe_config own c -> t <> u ->
+    ths (step t (step u c)) = ths (step u (step t c)) /\
+    same_tables (ts (gl (step t (step u c)))) (ts (gl (step u (step t c)))).
+Proof.
+  intros own c t u Hd Hc Hne.
+  pose proof (isolation_lemma own c Hd Hc [u; t]) as H1.
+  pose proof (isolation_lemma own c Hd Hc [t; u]) as H2.
+  simpl in H1, H2.
+  assert (Etu : Nat.eqb t u = false) by (apply Nat.eqb_neq; exact Hne).
+  assert (Eut : Nat.eqb u t = false) by (apply Nat.eqb_neq; auto).
+  split.
+  - apply nth_error_all_eq. intro n.
+    destruct (H1 n) as [A1 _]. destruct (H2 n) as [A2 _]. rewrite A1, A2. clear A1 A2.
+    destruct (Nat.eqb n u) eqn:Eu; destruct (Nat.eqb n t) eqn:Et; simpl; try reflexivity.
+    apply Nat.eqb_eq in Eu, Et. subst. congruence.
+  - intro k. destruct (own t k) eqn:Ot; [|destruct (own u k) eqn:Ou].
+    + destruct (H1 t) as [_ A1]. destruct (H2 t) as [_ A2].
+      destruct (A1 k Ot) as (a1 & a2 & a3). destruct (A2 k Ot) as (b1 & b2 & b3).
+      rewrite a1, a2, a3, b1, b2, b3. rewrite Nat.eqb_refl, Etu. simpl. auto.
+    + destruct (H1 u) as [_ A1]. destruct (H2 u) as [_ A2].
+      destruct (A1 k Ou) as (a1 & a2 & a3). destruct (A2 k Ou) as (b1 & b2 & b3).
+      rewrite a1, a2, a3, b1, b2, b3. rewrite Nat.eqb_refl, Eut. simpl. auto.
+    + destruct (step_safe_config own u c Hd Hc) as (Hcu & _ & _).
+      destruct (step_safe_config own t c Hd Hc) as (Hct & _ & _).
+      destruct (untouched_by_step own t (step u c) k Hd Hcu Ot) as (p1 & p2 & p3).
+      destruct (untouched_by_step own u c k Hd Hc Ou) as (q1 & q2 & q3).
+      destruct (untouched_by_step own u (step t c) k Hd Hct Ou) as (r1 & r2 & r3).
+      destruct (untouched_by_step own t c k Hd Hc Ot) as (s1 & s2 & s3).
+      rewrite p1, p2, p3, q1, q2, q3, r1, r2, r3, s1, s2, s3. auto.
+Qed.
+
+(* ================================================================================================================ *)
+(* Part B: compiled provider-free pages are safe programs                                                           *)
+(* ================================================================================================================ *)
+Section ItemInd.
+  Variable Q : item -> Prop.
+  Hypothesis HC : forall rid tpl inj fail body, Forall Q body -> Q (IComp rid tpl inj fail body).
+  Hypothesis HP : forall key pid val body, Forall Q body -> Q (IProv key pid val body).
+  Fixpoint item_rect' (it : item) : Q it :=
+    match it with
+    | IComp rid tpl inj fail body =>
+        HC rid tpl inj fail body
+           ((fix go (l : list item) : Forall Q l :=
+               match l with [] => Forall_nil Q | x :: r => Forall_cons x (item_rect' x) (go r) end) body)
+    | IProv key pid val body =>
+        HP key pid val body
+           ((fix go (l : list item) : Forall Q l :=
+               match l with [] => Forall_nil Q | x :: r => Forall_cons x (item_rect' x) (go r) end) body)
+    end.
+End ItemInd.
+
+(* no {% provide %} anywhere; every render id satisfies P.  (inject without a provider, failing get_context_data and
+   inline templates are all allowed.) *)
+Fixpoint provfree (P : N -> bool) (it : item) : bool :=
+  match it with
+  | IComp rid _ _ _ body =>
+      P rid && (fix go (l : list item) : bool := match l with [] => true | x :: r => provfree P x && go r end) body
+  | IProv _ _ _ _ => false
+  end.
+Definition provfree_list (P : N -> bool) (l : list item) : bool :=
+  (fix go (l : list item) : bool := match l with [] => true | x :: r => provfree P x && go r end) l.
+
+Definition parent_ok (P : N -> bool) (parent : option N) : Prop :=
+  match parent with Some q => P q = true | None => True end.
+
+Lemma direct_ids_provfree P l : provfree_list P l = true -> forallb P (direct_ids l) = true.
+Proof.
+  induction l as [|x l IH]; simpl; intro H; [reflexivity|].
+  apply andb_true_iff in H as [Hx Hl]. fold (direct_ids l). rewrite forallb_app, (IH Hl), andb_true_r.
+  destruct x; simpl in *; [|discriminate]. apply andb_true_iff in Hx as [Hr _]. rewrite Hr. reflexivity.
+Qed.
+
+Lemma prep_safe P parent rid tpl inj fail n :
+  parent_ok P parent -> P rid = true -> safe_code P (prep parent [] rid tpl inj fail n) = true.
+Proof.
+  intros Hp Hr. unfold prep. rewrite !safe_code_app. simpl. rewrite Hr. simpl.
+  assert (A : safe_code P (match parent with Some q => [CctxParent q] | None => [] end) = true).
+  { destruct parent; simpl; [simpl in Hp; rewrite Hp|]; reflexivity. }
+  rewrite A. destruct inj, fail, tpl; reflexivity.
+Qed.
+
+Local Arguments prep : simpl never.
+
+Lemma gen_safe P it : forall parent, parent_ok P parent -> provfree P it = true ->
+  safe_code P (fst (gen parent [] it)) = true /\ safe_code P (snd (gen parent [] it)) = true.
+Proof.
+  induction it as [rid tpl inj fail body IH | key pid val body IH] using item_rect'; intros parent Hpar Hpf;
+    [|discriminate].
+  simpl in Hpf. apply andb_true_iff in Hpf as [Hr Hbody]. fold (provfree_list P body) in Hbody.
+  simpl.
+  (* the children, with this component as parent *)
+  set (gs := (fix gens (l : list item) : list instr * list instr :=
+                match l with
+                | [] => ([], [])
+                | x :: r => let '(a, b) := gen (Some rid) [] x in let '(a', b') := gens r in (a ++ a', b ++ b')
+                end)).
+  assert (Hgs : safe_code P (fst (gs body)) = true /\ safe_code P (snd (gs body)) = true).
+  { clear Hpar. induction body as [|x body IHb]; simpl; [auto|].
+    inversion IH as [|? ? Hx Hrest]; subst. simpl in Hbody. apply andb_true_iff in Hbody as [Hpx Hpb].
+    destruct (Hx (Some rid) Hr Hpx) as [A1 A2]. destruct (IHb Hrest Hpb) as [B1 B2].
+    destruct (gen (Some rid) [] x) as [a b]. destruct (gs body) as [a' b']. simpl in *.
+    rewrite !safe_code_app, A1, A2, B1, B2. auto. }
+  destruct (gs body) as [imm dfr]. simpl in Hgs. destruct Hgs as [Hi Hdf].
+  assert (Hproc : safe_code P ([RendPop rid; AttrPop rid] ++ imm ++ [AttrUpd rid (direct_ids body)] ++ dfr ++
+                               [CctxDel rid; UnInAll rid]) = true).
+  { rewrite !safe_code_app, Hi, Hdf. simpl. rewrite Hr, (direct_ids_provfree P body Hbody). reflexivity. }
+  pose proof (prep_safe P parent rid tpl inj fail (length (direct_ids body)) Hpar Hr) as Hprep.
+  destruct parent; [simpl; auto|].
+  change (safe_code P (prep None [] rid tpl inj fail (length (direct_ids body)) ++
+                       ([RendPop rid; AttrPop rid] ++ imm ++ [AttrUpd rid (direct_ids body)] ++ dfr ++
+                        [CctxDel rid; UnInAll rid])) = true /\ safe_code P [] = true).
+  rewrite safe_code_app, Hprep, Hproc. auto.
+Qed.
+
+Lemma gens_safe P l : provfree_list P l = true -> safe_code P (fst (gens None [] l)) = true.
+Proof.
+  induction l as [|x l IH]; simpl; intro H; [reflexivity|].
+  apply andb_true_iff in H as [Hx Hl]. destruct (gen_safe P x None I Hx) as [A _].
+  destruct (gen None [] x) as [a b]. destruct (gens None [] l) as [a' b']. simpl in *.
+  rewrite safe_code_app, A, (IH Hl). reflexivity.
+Qed.
+
+Theorem page_code_safe_lemma : forall P page, provfree_list P page = true -> safe_code P (page_code page) = true.
+Proof. intros P page H. exact (gens_safe P page H). Qed.
+
+(* the initial configuration of provider-free pages over an empty state with the template cache disabled *)
+Theorem provfree_config_safe_lemma :
+  forall (own : nat -> N -> bool) (pages : list (list item)) (cap : Z) rnk depths,
+    (cap <= 0)%Z ->
+    (forall t page, nth_error pages t = Some page -> provfree_list (own t) page = true) ->
+    safe_config own (init_config (empty_G (Some cap) rnk depths true) (map TRender pages)).
+Proof.
+  intros own pages cap rnk depths Hcap Hpages. split.
+  - unfold quiet. simpl. repeat split; try reflexivity. apply Z.leb_le. exact Hcap.
+  - intros t th Hth. unfold init_config in Hth. simpl in Hth. rewrite !nth_error_map in Hth.
+    destruct (nth_error pages t) as [page|] eqn:E; [|discriminate]. simpl in Hth. inversion Hth; subst. clear Hth.
+    apply settle_safe. unfold safe_thread. simpl. apply page_code_safe_lemma. exact (Hpages t page E).
+Qed.
+
+(* ================================================================================================================ *)
+(* Part D: the genuine races - witnesses                                                                            *)
+(* ================================================================================================================ *)
+(* what thread t returned in configuration c (None: no such thread) *)
+Definition thread_result (c : config) (t : nat) : option (option err * list obs) :=
+  option_map result (nth_error (ths c) t).
+(* ... when it runs alone from c0 (the other threads never move) *)
+Definition solo_result (c0 : config) (t : nat) : option (option err * list obs) :=
+  thread_result (solo SOLO_FUEL t c0) t.
+Definition solo_finished (c0 : config) (t : nat) : bool :=
+  match nth_error (ths (solo SOLO_FUEL t c0)) t with Some th => finished th | None => false end.
+
+(* --- F1: managed_provide_cache's except branch diffs the GLOBAL all_reference_ids ---
+   thread 0: {% provide p %}{% component c2 %}{% component c3 %}{% endprovide %}, both inject p   (succeeds alone)
+   thread 1: {% provide p %}{% component c1002 %}{% endprovide %}, c1002 injects and then raises   (raises Boom alone)
+   schedule: 1 runs up to its all_reference_ids.copy(); 0 registers c2; 1 fails and un-registers c2 too; 0's c2 then
+   deletes the provided data early, c3 does not register and its inject raises KeyError. *)
+Definition F1_pages : list (list item) :=
+  [ [IProv 1 1 1 [IComp 2 (Some 11) (Some 1) false []; IComp 3 (Some 12) (Some 1) false []]];
+    [IProv 1 1001 1 [IComp 1002 (Some 10) (Some 1) true []]] ].
+Definition F1_c0 : config := init_config (empty_G (Some 0%Z) [1002; 2] [] true) (map TRender F1_pages).
+Definition F1_sched : list nat := expand [(1, 2); (0, 17); (1, 27); (0, 7)]%nat.
+
+Theorem provide_errorpath_refuted_lemma :
+  all_finished (run F1_sched F1_c0) = true /\ solo_finished F1_c0 0 = true /\ solo_finished F1_c0 1 = true /\
+  solo_result F1_c0 0 = Some (None, [OInj 1; OTpl 11; OInj 1; OTpl 12]) /\
+  thread_result (run F1_sched F1_c0) 0 = Some (Some KeyError, [OInj 1; OTpl 11]) /\
+  thread_result (run F1_sched F1_c0) 1 = solo_result F1_c0 1.
+Proof. vm_compute. repeat split. Qed.
+
+(* --- F2: unregister_provide_reference iterates a snapshot of the keys and then indexes the live dict ---
+   two successful provide + inject renders; thread 1 snapshots [p1, p1001], thread 0 finishes and pops p1, thread 1 indexes
+   provide_references[p1]: KeyError, and its own provided data stays behind. *)
+Definition F2_pages : list (list item) :=
+  [ [IProv 1 1 1 [IComp 2 (Some 10) (Some 1) false []]];
+    [IProv 1 1001 1 [IComp 1002 (Some 11) (Some 1) false []]] ].
+Definition F2_c0 : config := init_config (empty_G (Some 0%Z) [] [] true) (map TRender F2_pages).
+Definition F2_sched : list nat := expand [(0, 19); (1, 19); (0, 8); (1, 6)]%nat.
+
+Theorem unregister_snapshot_refuted_lemma :
+  all_finished (run F2_sched F2_c0) = true /\ solo_finished F2_c0 0 = true /\ solo_finished F2_c0 1 = true /\
+  solo_result F2_c0 1 = Some (None, [OInj 1; OTpl 11]) /\
+  thread_result (run F2_sched F2_c0) 1 = Some (Some KeyError, [OInj 1; OTpl 11]) /\
+  thread_result (run F2_sched F2_c0) 0 = solo_result F2_c0 0 /\
+  residue (gl (run F2_sched F2_c0)) = [[1001]; [1001]; []; []; []; []] /\
+  tables_empty (gl (solo SOLO_FUEL 0 F2_c0)) = true /\ tables_empty (gl (solo SOLO_FUEL 1 F2_c0)) = true.
+Proof. vm_compute. repeat split. Qed.
+
+(* --- F3: `if not provide_cache: return` in register_provide_reference looks at ALL threads' providers ---
+   thread 0 renders a component without any provider whose get_context_data raises; thread 1 a provide + inject render.
+   Alone, thread 0 returns at the emptiness test and leaves no reference id behind; with thread 1's provider alive it
+   registers itself, fails, and its id stays in all_reference_ids for ever.  Both results equal the solo results. *)
+Definition F3_pages : list (list item) :=
+  [ [IComp 1 (Some 11) None true []];
+    [IProv 1 1001 1 [IComp 1002 (Some 10) (Some 1) false []]] ].
+Definition F3_c0 : config := init_config (empty_G (Some 0%Z) [] [] true) (map TRender F3_pages).
+Definition F3_sched : list nat := expand [(1, 1); (0, 3); (1, 26)]%nat.
+
+Theorem register_empty_check_refuted_lemma :
+  all_finished (run F3_sched F3_c0) = true /\ solo_finished F3_c0 0 = true /\ solo_finished F3_c0 1 = true /\
+  thread_result (run F3_sched F3_c0) 0 = solo_result F3_c0 0 /\
+  thread_result (run F3_sched F3_c0) 1 = solo_result F3_c0 1 /\
+  allrefs (ps (gl (run F3_sched F3_c0))) = [1] /\
+  allrefs (ps (gl (solo SOLO_FUEL 0 F3_c0))) = [] /\ allrefs (ps (gl (solo SOLO_FUEL 1 F3_c0))) = [].
+Proof. vm_compute. repeat split. Qed.
+
+(* --- F4: LRUCache.get / set are not synchronised ---
+   (a) template cache of size 1 holding template 10.  Thread 0 renders the component with template 10 (a hit), thread 1
+       one with template 11 (first compile: evicts 10).  Thread 0 passes `key in self.cache`, thread 1 evicts, thread 0's
+       `self.cache[key]` raises KeyError. *)
+Definition F4_pages : list (list item) :=
+  [ [IComp 1 (Some 10) None false []]; [IComp 1001 (Some 11) None false []] ].
+Definition F4a_c0 : config := start (Some 1%Z) [10] [] [] true (map TRender F4_pages).
+Definition F4a_sched : list nat := expand [(0, 3); (1, 24); (0, 1)]%nat.
+
+Theorem lru_concurrent_get_refuted_lemma :
+  all_finished (run F4a_sched F4a_c0) = true /\ solo_finished F4a_c0 0 = true /\ solo_finished F4a_c0 1 = true /\
+  solo_result F4a_c0 0 = Some (None, [OTpl 10]) /\
+  thread_result (run F4a_sched F4a_c0) 0 = Some (Some KeyError, []) /\
+  thread_result (run F4a_sched F4a_c0) 1 = solo_result F4a_c0 1.
+Proof. vm_compute. repeat split. Qed.
+
+(* (b) size 2, both templates cached, two hits: both renders return the right thing, but the linked list has lost an
+       entry the dict still holds (the next evictions take the wrong node / raise). *)
+Definition F4b_c0 : config := start (Some 2%Z) [10; 11] [] [] true (map TRender F4_pages).
+Definition F4b_sched : list nat := expand [(1, 5); (0, 20); (1, 15)]%nat.
+
+Theorem lru_concurrent_corrupt_refuted_lemma :
+  all_finished (run F4b_sched F4b_c0) = true /\
+  thread_result (run F4b_sched F4b_c0) 0 = solo_result F4b_c0 0 /\
+  thread_result (run F4b_sched F4b_c0) 1 = solo_result F4b_c0 1 /\
+  lru_consistent (cs (gl F4b_c0)) = true /\
+  lru_consistent (cs (gl (solo SOLO_FUEL 0 F4b_c0))) = true /\ lru_consistent (cs (gl (solo SOLO_FUEL 1 F4b_c0))) = true /\
+  lru_consistent (cs (gl (run F4b_sched F4b_c0))) = false /\
+  walk_fwd (cs (gl (run F4b_sched F4b_c0))) = [11] /\ sortN (map fst (ldict (cs (gl (run F4b_sched F4b_c0))))) = [10; 11].
+Proof. vm_compute. repeat split. Qed.
+
+(* --- F5: lazy media resolution runs twice when two threads find `resolved` false ---
+   Harmless when resolving a resolved path changes nothing (Part C).  When the component's directory contains the same
+   relative path again (depth 2), the second resolution rewrites the path once more: one thread - and every later reader of
+   the class - gets dir/dir/file instead of dir/file. *)
+Definition F5_c0 : config := init_config (empty_G (Some 128%Z) [] [(1, 2)] true) [TMedia 1; TMedia 1].
+Definition F5_sched : list nat := expand [(1, 3); (0, 8); (1, 5)]%nat.
+
+Theorem lazy_media_double_resolve_refuted_lemma :
+  all_finished (run F5_sched F5_c0) = true /\
+  solo_result F5_c0 0 = Some (None, [OMedia 1]) /\ solo_result F5_c0 1 = Some (None, [OMedia 1]) /\
+  thread_result (run F5_sched F5_c0) 0 = Some (None, [OMedia 1]) /\
+  thread_result (run F5_sched F5_c0) 1 = Some (None, [OMedia 2]) /\
+  alookup 1 (mcache (ms (gl (run F5_sched F5_c0)))) = Some 2.
+Proof. vm_compute. repeat split. Qed.
+
+(* ---------- non-vacuity of parts A/B: two provider-free pages (one of them failing), a real interleaving ---------- *)
+Definition NV_pages : list (list item) :=
+  [ [IComp 1 (Some 10) None false [IComp 2 (Some 11) None false []; IComp 3 (Some 12) None false []]];
+    [IComp 1001 (Some 10) (Some 1) true []] ].            (* injects without a provider: KeyError *)
+Definition NV_own (t : nat) (k : N) : bool := N.eqb (k / 1000) (N.of_nat t).
+Definition NV_c0 : config := init_config (empty_G (Some 0%Z) [] [] true) (map TRender NV_pages).
+Definition NV_sched : list nat := ([0; 1; 0; 0; 1; 0; 0; 0] ++ repeat 0 40)%nat.
+
+Lemma NV_disjoint : disjoint NV_own.
+Proof.
+  intros t u k Hne Ht. unfold NV_own in *. apply N.eqb_eq in Ht. apply N.eqb_neq. intro Hu.
+  apply Hne. apply Nat2N.inj. congruence.
+Qed.
+
+Lemma NV_provfree : forall t page, nth_error NV_pages t = Some page -> provfree_list (NV_own t) page = true.
+Proof. intros [|[|t]] page H; simpl in H; inversion H; subst; try reflexivity. destruct t; discriminate. Qed.
+
+Example isolation_premises_satisfiable_example :
+  disjoint NV_own /\ safe_config NV_own NV_c0 /\
+  all_finished (run NV_sched NV_c0) = true /\
+  thread_result (run NV_sched NV_c0) 0 = Some (None, [OTpl 10; OTpl 11; OTpl 12]) /\
+  thread_result (run NV_sched NV_c0) 1 = Some (Some KeyError, []) /\
+  residue (gl (run NV_sched NV_c0)) = [[]; []; []; [1001]; []; []].
+Proof.
+  split; [exact NV_disjoint|]. split.
+  - apply (provfree_config_safe_lemma NV_own NV_pages 0 [] []); [lia|exact NV_provfree].
+  - vm_compute. repeat split.
+Qed.
+
+(* ================================================================================================================ *)
+(* Part C: lazy class data - first access of .media is isolated when re-resolving a resolved path changes nothing     *)
+(* ================================================================================================================ *)
+Definition dep (g : G) (k : N) : N := aget 0 k (mdepth (ms g)).
+Definition pth (g : G) (k : N) : N := aget 0 k (mpath (ms g)).
+
+(* invariant of the class data: paths are unresolved (0) or fully resolved; `resolved` and the media cache only ever
+   describe the fully resolved path *)
+Definition ginv (g : G) : Prop :=
+  (forall k, dep g k <= 1) /\
+  (forall k, pth g k = 0 \/ pth g k = dep g k) /\
+  (forall k, mem k (mres (ms g)) = true -> pth g k = dep g k) /\
+  (forall k v, alookup k (mcache (ms g)) = Some v -> v = dep g k).
+
+(* where a thread can be inside `Comp.media` for class k, and what it knows at that point *)
+Inductive tshape (g : G) (k : N) : list instr -> list obs -> Prop :=
+| TS0 : tshape g k [McHas k] []
+| TS1 : tshape g k [MResolvedQ1 k] []
+| TS2 : tshape g k [MResolvedQ2 k; MReadJs k] []
+| TS3 : tshape g k [MResolvePaths k; MSetRes k; MReadJs k] []
+| TS4 : pth g k = dep g k -> tshape g k [MSetRes k; MReadJs k] []
+| TS5 : pth g k = dep g k -> tshape g k [MReadJs k] []
+| TS6 : tshape g k [McPut k (dep g k)] []
+| TS7 : alookup k (mcache (ms g)) = Some (dep g k) -> tshape g k [McRet k] []
+| TS8 : tshape g k [] [OMedia (dep g k)].
+
+(* what other threads' steps may do to the class data *)
+Definition mono (g g' : G) : Prop :=
+  mdepth (ms g') = mdepth (ms g) /\
+  (forall k, pth g k = dep g k -> pth g' k = dep g' k) /\
+  (forall k, alookup k (mcache (ms g)) = Some (dep g k) -> alookup k (mcache (ms g')) = Some (dep g' k)).
+
+Lemma mono_refl g : mono g g.
+Proof. repeat split; auto. Qed.
+
+Lemma dep_mono g g' k : mono g g' -> dep g' k = dep g k.
+Proof. intros (E & _). unfold dep. rewrite E. reflexivity. Qed.
+
+Lemma tshape_mono g g' k c o : mono g g' -> tshape g k c o -> tshape g' k c o.
+Proof.
+  intros Hm H. pose proof (dep_mono g g' k Hm) as Ed. destruct Hm as (E & Hp & Hc).
+  inversion H; subst; try rewrite <- Ed; try constructor; auto.
+Qed.
+
+Lemma aget_aput {V} (d : V) k k' v l : aget d k (aput k' v l) = if N.eqb k k' then v else aget d k l.
+Proof. unfold aget. rewrite alookup_aput. destruct (N.eqb k k'); reflexivity. Qed.
+
+Lemma mem_sadd k x l : mem k (sadd x l) = N.eqb k x || mem k l.
+Proof.
+  unfold sadd. destruct (mem x l) eqn:E.
+  - destruct (N.eqb k x) eqn:Ek; [apply N.eqb_eq in Ek; subst; rewrite E|]; reflexivity.
+  - unfold mem. rewrite existsb_app. simpl. rewrite orb_false_r. apply orb_comm.
+Qed.
+
+Lemma resolve_path_fix d p : d <= 1 -> p = 0 \/ p = d -> resolve_path d p = d.
+Proof.
+  intros Hd [->| ->]; unfold resolve_path.
+  - destruct (N.ltb 0 d) eqn:E; [apply N.ltb_lt in E; lia|apply N.ltb_ge in E; lia].
+  - rewrite N.ltb_irrefl. reflexivity.
+Qed.
+
+(* one step of a thread that is inside .media *)
+Lemma media_step g th k :
+  ginv g -> failed th = None -> tshape g k (code th) (out th) ->
+  ginv (fst (step_thread g th)) /\ mono g (fst (step_thread g th)) /\
+  failed (snd (step_thread g th)) = None /\
+  tshape (fst (step_thread g th)) k (code (snd (step_thread g th))) (out (snd (step_thread g th))).
+Proof.
+  intros (Hd & Hp & Hr & Hc) Hf Hs.
+  assert (HG : ginv g) by (repeat split; assumption).
+  unfold step_thread. remember (code th) as cd eqn:Ec. remember (out th) as ou eqn:Eo.
+  destruct Hs as [| | | |Hk|Hk| |Hk|]; simpl.
+  - (* McHas *) destruct (amem k (mcache (ms g))) eqn:E; simpl.
+    + split; [exact HG|]. split; [apply mono_refl|]. split; [exact Hf|]. apply TS7.
+      unfold amem in E. destruct (alookup k (mcache (ms g))) as [v|] eqn:E2; [|discriminate].
+      rewrite (Hc k v E2). reflexivity.
+    + split; [exact HG|]. split; [apply mono_refl|]. split; [exact Hf|]. apply TS1.
+  - (* MResolvedQ1 *) destruct (mem k (mres (ms g))) eqn:E; simpl.
+    + split; [exact HG|]. split; [apply mono_refl|]. split; [exact Hf|]. apply TS5. apply Hr. exact E.
+    + split; [exact HG|]. split; [apply mono_refl|]. split; [exact Hf|]. apply TS2.
+  - (* MResolvedQ2 *) destruct (mem k (mres (ms g))) eqn:E; simpl.
+    + split; [exact HG|]. split; [apply mono_refl|]. split; [exact Hf|]. apply TS4. apply Hr. exact E.
+    + split; [exact HG|]. split; [apply mono_refl|]. split; [exact Hf|]. apply TS3.
+  - (* MResolvePaths *)
+    set (g' := with_ms g (set_mpath (ms g) (aput k (resolve_path (aget 0 k (mdepth (ms g))) (aget 0 k (mpath (ms g)))) (mpath (ms g))))).
+    assert (Efix : resolve_path (aget 0 k (mdepth (ms g))) (aget 0 k (mpath (ms g))) = dep g k)
+      by (apply resolve_path_fix; [apply Hd|apply Hp]).
+    assert (Epth : forall j, pth g' j = if N.eqb j k then dep g k else pth g j).
+    { intro j. unfold pth, g'. simpl. rewrite aget_aput, Efix. reflexivity. }
+    assert (Edep : forall j, dep g' j = dep g j) by reflexivity.
+    split; [|split; [|split; [exact Hf|]]].
+    + split; [exact Hd|]. split; [|split].
+      * intro j. rewrite Epth, Edep. destruct (N.eqb j k) eqn:E; [apply N.eqb_eq in E; subst; auto|apply Hp].
+      * intros j Hj. rewrite Epth, Edep. destruct (N.eqb j k) eqn:E; [apply N.eqb_eq in E; subst; auto|apply Hr; exact Hj].
+      * exact Hc.
+    + split; [reflexivity|]. split; [|auto].
+      intros j Hj. rewrite Epth, Edep. destruct (N.eqb j k) eqn:E; [apply N.eqb_eq in E; subst; auto|exact Hj].
+    + apply TS4. rewrite Epth, N.eqb_refl. reflexivity.
+  - (* MSetRes *)
+    split; [|split; [|split; [exact Hf|]]].
+    + split; [exact Hd|]. split; [exact Hp|]. split; [|exact Hc].
+      intros j Hj. simpl in Hj. rewrite mem_sadd in Hj. apply orb_true_iff in Hj as [E|Hj]; [|apply Hr; exact Hj].
+      apply N.eqb_eq in E; subst. exact Hk.
+    + repeat split; auto.
+    + apply TS5. exact Hk.
+  - (* MReadJs *) split; [exact HG|]. split; [apply mono_refl|]. split; [exact Hf|].
+    fold (pth g k). rewrite Hk. apply TS6.
+  - (* McPut *)
+    split; [|split; [|split; [exact Hf|]]].
+    + split; [exact Hd|]. split; [exact Hp|]. split; [exact Hr|].
+      intros j v Hj. simpl in Hj. rewrite alookup_aput in Hj.
+      destruct (N.eqb j k) eqn:E; [apply N.eqb_eq in E; subst; inversion Hj; reflexivity|apply Hc; exact Hj].
+    + split; [reflexivity|]. split; [auto|].
+      intros j Hj. simpl. rewrite alookup_aput. destruct (N.eqb j k) eqn:E; [apply N.eqb_eq in E; subst; reflexivity|exact Hj].
+    + apply TS7. simpl. rewrite alookup_aput, N.eqb_refl. reflexivity.
+  - (* McRet *) rewrite Hk. simpl.
+    split; [exact HG|]. split; [apply mono_refl|]. split; [exact Hf|]. apply TS8.
+  - (* finished *) split; [exact HG|]. split; [apply mono_refl|]. split; [exact Hf|]. rewrite <- Ec, <- Eo. apply TS8.
+Qed.
+
+Definition media_config (ks : list N) (c : config) : Prop :=
+  ginv (gl c) /\ length (ths c) = length ks /\
+  forall t th k, nth_error (ths c) t = Some th -> nth_error ks t = Some k ->
+                 failed th = None /\ tshape (gl c) k (code th) (out th).
+
+Lemma length_upd_nth {A} n (x : A) l : length (upd_nth n x l) = length l.
+Proof. revert n; induction l; intros [|n]; simpl; auto. Qed.
+
+Lemma media_config_step ks u c : media_config ks c -> media_config ks (step u c).
+Proof.
+  intros (Hg & Hlen & Hth). unfold step.
+  destruct (nth_error (ths c) u) as [th|] eqn:E; [|split; [exact Hg|split; [exact Hlen|exact Hth]]].
+  assert (Hk : exists k, nth_error ks u = Some k).
+  { destruct (nth_error ks u) eqn:Ek; [eauto|]. apply nth_error_None in Ek.
+    assert (u < length (ths c))%nat by (apply nth_error_Some; congruence). lia. }
+  destruct Hk as [k Hk]. destruct (Hth u th k E Hk) as [Hf Hs].
+  destruct (media_step (gl c) th k Hg Hf Hs) as (Hg' & Hm & Hf' & Hs').
+  destruct (step_thread (gl c) th) as [g' th']. simpl in *.
+  split; [exact Hg'|]. split; [simpl; rewrite length_upd_nth; exact Hlen|].
+  intros t th0 k0 Ht Hk0. simpl in Ht. destruct (Nat.eq_dec t u) as [->|Hne].
+  - rewrite (nth_error_upd_nth_same _ _ _ _ E) in Ht. inversion Ht; subst. rewrite Hk in Hk0. inversion Hk0; subst. auto.
+  - rewrite nth_error_upd_nth_other in Ht by auto. destruct (Hth t th0 k0 Ht Hk0) as [A B].
+    split; [exact A|]. exact (tshape_mono _ _ _ _ _ Hm B).
+Qed.
+
+Lemma media_config_run ks s : forall c, media_config ks c -> media_config ks (run s c).
+Proof. induction s as [|u s IH]; intros c H; simpl; [exact H|]. apply IH. apply media_config_step. exact H. Qed.
+
+Theorem lazy_media_isolated_lemma :
+  forall cap rnk depths nsp (ks : list N),
+    (forall k, aget 0 k depths <= 1) ->
+    let c0 := init_config (empty_G cap rnk depths nsp) (map TMedia ks) in
+    forall (s : list nat) (t : nat) (th : thread) (k : N),
+      nth_error (ths (run s c0)) t = Some th -> nth_error ks t = Some k ->
+      failed th = None /\
+      (finished th = true -> out th = [OMedia (aget 0 k depths)]) /\
+      (forall v, alookup k (mcache (ms (gl (run s c0)))) = Some v -> v = aget 0 k depths).
+Proof.
+  intros cap rnk depths nsp ks Hd c0 s t th k Hth Hk.
+  assert (H0 : media_config ks c0).
+  { split; [|split].
+    - split; [exact Hd|]. split; [intro j; left; reflexivity|]. split; [intros j Hj; discriminate|intros j v Hj; discriminate].
+    - unfold c0, init_config. simpl. rewrite !map_length. reflexivity.
+    - intros t0 th0 k0 Ht0 Hk0. unfold c0, init_config in Ht0. simpl in Ht0. rewrite !nth_error_map, Hk0 in Ht0.
+      simpl in Ht0. inversion Ht0; subst. simpl. split; [reflexivity|apply TS0]. }
+  pose proof (media_config_run ks s c0 H0) as (Hg & _ & Hall).
+  assert (Edep : forall j, dep (gl (run s c0)) j = aget 0 j depths).
+  { intro j. unfold dep.
+    assert (Hm : forall s c, mdepth (ms (gl c)) = depths -> media_config ks c -> mdepth (ms (gl (run s c))) = depths).
+    { clear. induction s as [|u s IH]; intros c Hc Hmc; simpl; [exact Hc|]. apply IH; [|apply media_config_step; exact Hmc].
+      destruct Hmc as (Hg & Hlen & Hth). unfold step. destruct (nth_error (ths c) u) as [th|] eqn:E; [|exact Hc].
+      assert (Hk : exists k, nth_error ks u = Some k).
+      { destruct (nth_error ks u) eqn:Ek; [eauto|]. apply nth_error_None in Ek.
+        assert (u < length (ths c))%nat by (apply nth_error_Some; congruence). lia. }
+      destruct Hk as [k Hk]. destruct (Hth u th k E Hk) as [Hf Hs].
+      destruct (media_step (gl c) th k Hg Hf Hs) as (_ & (Hm & _) & _).
+      destruct (step_thread (gl c) th) as [g' th']. simpl in *. congruence. }
+    rewrite (Hm s c0 eq_refl H0). reflexivity. }
+  destruct (Hall t th k Hth Hk) as [Hf Hs]. split; [exact Hf|]. split.
+  - intro Hfin. unfold finished in Hfin. inversion Hs as [Ec Eo|Ec Eo|Ec Eo|Ec Eo|Hq Ec Eo|Hq Ec Eo|Ec Eo|Hq Ec Eo|Ec Eo];
+      rewrite <- Ec in Hfin; try discriminate. rewrite Edep. reflexivity.
+  - intros v Hv. destruct Hg as (_ & _ & _ & Hc). rewrite (Hc k v Hv). apply Edep.
+Qed.
